@@ -30,6 +30,8 @@ import QV.Lemmas.Swap
 import QV.Props.C08
 
 namespace QV.Props
+namespace C09
+open QV.Props.C08
 open QV QV.Obs Finset
 open scoped ComplexConjugate ComplexOrder
 
@@ -304,4 +306,5 @@ example : let am : RBM ℝ 2 3 := ⟨fun i j => (i.val : ℝ) - j.val + 0.5, fun
   exact ⟨C09_purity_pure psi hψ A,
     (C09_renyi_nonneg A _ (C09_pure_is_state psi hψ).1 (C09_pure_is_state psi hψ).2).2.2⟩
 
+end C09
 end QV.Props
